@@ -45,6 +45,16 @@ def cases(draw):
         pool = [nm] + POOL[:10]
     c = draw(gen.program_cases(pool=pool, names=names, n_inputs=(3, 6), max_fields=6, tricky=draw(st.booleans())))
     c["shape"] = "typed"
+    k = draw(st.integers(0, 5))
+    if k == 0:
+        # the same sentence written with other whitespace / comments (CRLF, form feed, NBSP, // and /* */) is still a sentence
+        from .. import gen_text
+
+        c["text"] = draw(gen_text.trivia_variant(M.program_tokens(c["prog"])))[0]
+    elif k == 1:
+        # a second experiment with the SAME name (say, the candidate revision) is compiled and stays alive next to this one
+        sib = draw(gen.programs(pool=pool, names=[c["prog"]["name"]], max_fields=3, max_depth=1))
+        c["sibling"] = sib["prog"]
     return c
 
 
@@ -66,10 +76,12 @@ def known_filter(case, viol):
 
 def judge(case):
     prog = case["prog"]
-    text = M.render(prog)
+    text = case.get("text") or M.render(prog)
     toks = M.program_tokens(prog)
     if not refgrammar.accepts([t for t, _ in toks]):
         raise runner.HarnessError("generator produced a non-sentence: " + text)
+    if "text" in case and not refgrammar.accepts([t for t, _ in refgrammar.lex(text)]):  # whole-word keyword reading
+        raise runner.HarnessError("trivia variant is not a sentence: %r" % text)
     tags = common.shape_tags(prog)
     idents = M.all_identifiers(prog)
     nt = False
@@ -108,6 +120,13 @@ def judge(case):
                 "tags": tags, "key": text}
     labels = [M.lit_value(g["lit"]) for r in rets for g in r["groups"]]
     viol = []
+    if case.get("sibling"):
+        tags.append("same-name-sibling-alive")
+        sib = sut.compile_text(M.render(case["sibling"]))  # kept alive in `sib` while the first evaluator is used
+        if sib[0] != "ok" and not (set(M.all_fields(case["sibling"])) & known_ids("field")):
+            viol.append("grammatical experiment does not compile: %s: %s | %s" % (sib[1], sib[2], M.render(case["sibling"])))
+    if "text" in case:
+        tags.append("written-with-trivia")
     for enc in case["inputs"]:
         env = M.dec_inputs(enc)
         act = sut.call(res[1], env)
